@@ -680,6 +680,166 @@ def feature_folds(P, rep, rule="FOLD"):
     rep.floor(rule, n, 18, "model folds and tag writes in the 6 features")
 
 
+def seed_copies(P, rep, rule="FOLD.seed"):
+    """the painted value enters a feature's computation only as a copy of its own element"""
+    rep.rule(rule, "inside a feature a value read from the result vector is used only as a whole: it initialises or is assigned to a "
+                   "local (element k of a local array from element k of the block), or is handed to a model as its incoming value; it "
+                   "is never combined arithmetically in the feature itself, so that models fold over exactly the value painted so far")
+    import sympy as sp
+    from .layout import feature_properties, find_switch_on_kind, forward_loop, prop_hook
+    WRAP = norm.CASTS + ("ImplicitCastExpr", "MaterializeTemporaryExpr", "ParenExpr", "ExprWithCleanups", "CXXBindTemporaryExpr")
+    n = 0
+    for F in feature_properties(P):
+        entry_k, out_k = F.params[5], F.params[6]
+        sym = norm.Sym(P, F, hook=prop_hook(P), inline_locals=True)
+        for x in F.walk():
+            if not (x.get("k") == "DeclRefExpr" and x.get("r") == out_k):
+                continue
+            par = F.parent.get(x["i"])
+            while par is not None and par.get("k") in WRAP:
+                par = F.parent.get(par["i"])
+            sub = astq.subscript(par)
+            if sub is None or sc(sub[0]) is not x:
+                continue    # handed over as a whole (grains view): LAYOUT.L3
+            node = sc(par)
+            up = F.parent.get(node["i"])
+            child = node
+            while up is not None and up.get("k") in WRAP:
+                child, up = up, F.parent.get(up["i"])
+            if up is None:
+                continue
+            uk = up.get("k")
+            # the write side
+            if uk in ("BinaryOperator", "CompoundAssignOperator", "CXXOperatorCallExpr") and up.get("op") in norm.ASSIGN_OPS and sc(up["c"][0]) is node:
+                if up.get("op") != "=":
+                    n += 1
+                    rep.violation(rule, "%s: %s" % (F.qn, norm.render(P, up)[:80]), F.nloc(up), F.qn, norm.render(P, up)[:140],
+                                  "the feature itself offsets the painted value", key="%s|%s|compound" % (rule, F.qn))
+                continue
+            n += 1
+            # offset of the element read
+            idx = sub[1]
+            off = None
+            try:
+                e = sp.expand(sym(idx))
+                ent = [a for a in e.free_symbols if str(a).startswith("entry_in_output") or "entry" in str(a).lower()]
+                # offset = idx - entry_in_output[i_property]: take the integer constant term
+                off = e.as_coeff_Add()[0]
+                off = int(off) if off.is_Integer else None
+            except Exception:
+                off = None
+            if uk in ("CXXMemberCallExpr", "CallExpr"):
+                callee = P.d(up.get("callee")).get("n", "")
+                if callee.startswith("get_"):
+                    rep.ok(rule, "%s: %s handed to %s" % (F.qn.split("::")[-2], norm.render(P, node)[:50], callee), F.nloc(x), F.qn)
+                    continue
+            if uk == "VarDecl":
+                rep.ok(rule, "%s: %s initialises %s" % (F.qn.split("::")[-2], norm.render(P, node)[:50], up.get("n")), F.nloc(x), F.qn)
+                continue
+            if uk == "BinaryOperator" and up.get("op") == "=" and sc(up["c"][1]) is node:
+                tsub = astq.subscript(up["c"][0])
+                if tsub is None:
+                    rep.ok(rule, "%s: %s assigned to %s" % (F.qn.split("::")[-2], norm.render(P, node)[:50], norm.render(P, up["c"][0])[:30]), F.nloc(x), F.qn)
+                    continue
+                ti = sc(tsub[1])
+                if ti.get("k") == "IntegerLiteral" and off is not None and int(ti["v"]) == off:
+                    rep.ok(rule, "%s: element %d of %s <- element %d of the block" % (F.qn.split("::")[-2], off, norm.render(P, tsub[0])[:30], off), F.nloc(x), F.qn)
+                    continue
+                rep.violation(rule, "%s: %s receives %s" % (F.qn, norm.render(P, up["c"][0])[:40], norm.render(P, node)[:50]), F.nloc(up), F.qn,
+                              norm.render(P, up)[:140], "element of the local does not come from the same element of the block",
+                              key="%s|%s|%s|misaligned" % (rule, F.qn, norm.render(P, up["c"][0])[:40]),
+                              witness="a covering feature of this type over a plate that painted a velocity")
+                continue
+            if uk in ("InitListExpr", "CXXConstructExpr"):
+                rep.ok(rule, "%s: %s in an initialiser list" % (F.qn.split("::")[-2], norm.render(P, node)[:50]), F.nloc(x), F.qn)
+                continue
+            if uk in ("BinaryOperator",) and up.get("op") in ("+", "-", "*", "/"):
+                stmt = up
+                for a in F.ancestors(up):
+                    if a.get("k") in ("BinaryOperator",) and a.get("op") == "=":
+                        stmt = a
+                        break
+                    if a.get("k") in ("VarDecl",):
+                        stmt = a
+                        break
+                rep.violation(rule, "%s: %s is combined arithmetically (%s)" % (F.qn, norm.render(P, node)[:50], norm.render(P, up)[:60]), F.nloc(up), F.qn,
+                              norm.render(P, stmt)[:160], "the value the models start from is not the value painted so far",
+                              key="%s|%s|%s|arith" % (rule, F.qn, norm.render(P, stmt["c"][0])[:40] if stmt.get("k") == "BinaryOperator" else stmt.get("n")),
+                              witness="a covering feature of this type without (or with an out-of-range / add) model of this kind over a plate that painted a value")
+                continue
+            # comparisons, asserts, isnan... do not change the value
+            rep.ok(rule, "%s: %s read in %s" % (F.qn.split("::")[-2], norm.render(P, node)[:50], uk), F.nloc(x), F.qn)
+    rep.floor(rule, n, 22, "reads of the result vector in the 6 features")
+
+
+def tag_registry(P, rep, rule="TAG.unique"):
+    """tags are interned by full string equality"""
+    rep.rule(rule, "add_vector_unique(list, s) returns the index of an element equal to s (full std::string equality against the "
+                   "argument) or appends s and returns the new last index; every feature's tag_index is the result of interning its "
+                   "own tag in world->feature_tags -- two features share a tag index iff their tags are the same string")
+    F = P.func("WorldBuilder::Features::FeatureUtilities::add_vector_unique")
+    vec_k, str_k = F.params
+    ifs = [x for x in F.walk() if x.get("k") == "IfStmt"]
+    loops = [x for x in F.walk() if x.get("k") in ("ForStmt", "CXXForRangeStmt", "WhileStmt")]
+    if len(ifs) != 1 or len(loops) != 1:
+        raise AnalysisBroken("add_vector_unique: %d ifs, %d loops (the confirmed shape is one search loop with one test)" % (len(ifs), len(loops)))
+    cond = sc(ifs[0]["c"][0])
+    ok = False
+    if cond.get("k") == "CXXOperatorCallExpr" and cond.get("op") == "==" and len(cond["c"]) == 2:
+        a, b = sc(cond["c"][0]), sc(cond["c"][1])
+        def is_elem(n):
+            sub = astq.subscript(n)
+            return sub is not None and astq.is_ref_to(sub[0], vec_k)
+        def is_arg(n):
+            return astq.is_ref_to(n, str_k)
+        ok = (is_elem(a) and is_arg(b)) or (is_elem(b) and is_arg(a))
+    if ok:
+        rep.ok(rule, "add_vector_unique: match test is `%s`" % norm.render(P, cond), F.nloc(cond), F.qn)
+    else:
+        rep.violation(rule, "add_vector_unique: match test is `%s`" % norm.render(P, cond)[:100], F.nloc(cond), F.qn, norm.render(P, cond)[:160],
+                      "an element is taken for the tag although it is not the same string: two different tags share an index, a point reports another feature's tag",
+                      key="%s|match" % rule, witness="two features whose tags differ but satisfy this test (one a prefix of the other, different case, ...)")
+    # on a match: return the loop index; otherwise append the argument and return size()-1
+    rets = [x for x in F.walk() if x.get("k") == "ReturnStmt"]
+    sym = norm.Sym(P, F, inline_locals=True)
+    in_if = [r for r in rets if any(a is ifs[0] for a in F.ancestors(r))]
+    after = [r for r in rets if r not in in_if]
+    pushes = [x for x in F.walk() if x.get("k") == "CXXMemberCallExpr" and x["c"][0].get("n") in ("push_back", "emplace_back")]
+    good = len(in_if) == 1 and len(after) == 1 and len(pushes) == 1
+    if good:
+        sub = astq.subscript(sc(cond["c"][0])) or astq.subscript(sc(cond["c"][1])) if cond.get("c") and len(cond["c"]) == 2 else None
+        good = sub is not None and norm.render(P, in_if[0]["c"][0], nocast=True) == norm.render(P, sub[1], nocast=True)
+        good = good and astq.is_ref_to(pushes[0]["c"][0]["c"][0], vec_k) and astq.is_ref_to(pushes[0]["c"][1], str_k)
+        import sympy as sp
+        r = norm.render(P, after[0]["c"][0], nocast=True).replace(" ", "")
+        good = good and r in ("(vector.size()-1)", "vector.size()-1")
+    if good:
+        rep.ok(rule, "add_vector_unique: returns the matching index, else appends the argument and returns size()-1", F.loc, F.qn)
+    else:
+        rep.violation(rule, "add_vector_unique: return/append structure", F.loc, F.qn, "; ".join(norm.render(P, r)[:60] for r in rets),
+                      "the index handed back is not that of the interned tag", key="%s|structure" % rule)
+    n = 0
+    from .layout import FEATURES
+    for f in FEATURES:
+        G = P.func("WorldBuilder::Features::%s::parse_entries" % f)
+        sites = [x for x in G.walk() if x.get("k") == "CallExpr" and x.get("callee") == F.key]
+        for c in sites:
+            n += 1
+            par = G.parent.get(c["i"])
+            while par is not None and par.get("k") in norm.CASTS + ("ImplicitCastExpr",):
+                par = G.parent.get(par["i"])
+            a0, a1 = sc(c["c"][1]), sc(c["c"][2])
+            tgt_ok = par is not None and par.get("k") == "BinaryOperator" and par.get("op") == "=" and astq.is_this_field(P, sc(par["c"][0]), "tag_index")
+            a0_ok = a0.get("k") == "MemberExpr" and a0.get("n") == "feature_tags"
+            a1_ok = a1.get("k") == "MemberExpr" and astq.is_this_field(P, a1, "tag") or (a1.get("k") == "DeclRefExpr" and P.d(a1["r"]).get("n") == "tag")
+            if tgt_ok and a0_ok and a1_ok:
+                rep.ok(rule, "%s: tag_index = add_vector_unique(world->feature_tags, tag)" % f, G.nloc(c), G.qn)
+            else:
+                rep.violation(rule, "%s::parse_entries: %s" % (f, norm.render(P, par if par else c)[:100]), G.nloc(c), G.qn, norm.render(P, par if par else c)[:160],
+                              "the feature's tag index is not the index of its own tag in the world's tag list", key="%s|%s|site" % (rule, f))
+    rep.floor(rule, n, 6, "features interning their tag")
+
+
 # ------------------------------------------------------------------------------------------------
 def cooling_formulas(P, rep, rule="EXPR.cooling"):
     """closed forms of the cooling models and the Gaussian plume, from the published model descriptions"""
